@@ -1547,9 +1547,10 @@ class Tensor:
         #
         # Create new shape list
         #
-        # TBD: Create shape
-        #
-        shape = None
+        shape = self.getShape(authoritative=True)
+        if shape:
+            shape = list(shape)
+            shape[depth], shape[depth + 1] = shape[depth + 1], shape[depth]
 
         # Only call Fiber.swapRanks if there are actually payloads to swap
         if not all(fiber.isEmpty() for fiber in self.ranks[depth].fibers):
